@@ -62,7 +62,7 @@ func denoteReal(s string, present bool) denoted {
 	case "inf", "infinity":
 		return denoted{kind: numInf, neg: neg}
 	}
-	f, _, err := new(big.Float).SetPrec(2200).SetMode(big.ToNearestEven).Parse(s, 0)
+	f, _, err := new(big.Float).SetPrec(2200).SetMode(big.ToNearestEven).Parse(clampExponent(s), 0)
 	if err != nil {
 		return denoted{kind: numUnparseable}
 	}
@@ -70,6 +70,39 @@ func denoteReal(s string, present bool) denoted {
 		return denoted{kind: numInf, neg: f.Signbit()}
 	}
 	return denoted{kind: numFinite, val: f, neg: f.Signbit()}
+}
+
+// clampExponent rewrites an exponent of more than 5 digits to +-99999 (math/big would otherwise compute
+// 10^999999999); every comparison the oracle makes (sign, >1, resolution) is unaffected.
+func clampExponent(s string) string {
+	hex := strings.HasPrefix(strings.TrimLeft(s, "+-"), "0x") || strings.HasPrefix(strings.TrimLeft(s, "+-"), "0X")
+	marks := "eE"
+	if hex {
+		marks = "pP"
+	}
+	i := strings.LastIndexAny(s, marks)
+	if i < 0 || i+1 >= len(s) {
+		return s
+	}
+	exp := s[i+1:]
+	sign := ""
+	if exp[0] == '+' || exp[0] == '-' {
+		sign, exp = exp[:1], exp[1:]
+	}
+	digits := 0
+	for _, ch := range exp {
+		if ch == '_' {
+			continue
+		}
+		if ch < '0' || ch > '9' {
+			return s
+		}
+		digits++
+	}
+	if digits <= 5 {
+		return s
+	}
+	return s[:i+1] + sign + "99999"
 }
 
 // denoteInt: the integer a string denotes as a plain base-10 numeral with optional sign.
@@ -110,16 +143,16 @@ var (
 
 // SchedView is what the scheduler's PodInfo said about the pod (floats as strings: NaN is not JSON).
 type SchedView struct {
-	ReqType    string  `json:"requestType"`
-	Shared     bool    `json:"isSharedGPURequest"`
-	GPUs       string  `json:"gpus"`
-	Portion    string  `json:"portion"`
-	Memory     int64   `json:"gpuMemory"`
-	Devices    int64   `json:"devices"`
-	AccPortion string  `json:"acceptedPortion,omitempty"`
-	AccDevices int64   `json:"acceptedDevices,omitempty"`
-	AccType    string  `json:"receivedType,omitempty"`
-	Panic      string  `json:"panic,omitempty"`
+	ReqType    string `json:"requestType"`
+	Shared     bool   `json:"isSharedGPURequest"`
+	GPUs       string `json:"gpus"`
+	Portion    string `json:"portion"`
+	Memory     int64  `json:"gpuMemory"`
+	Devices    int64  `json:"devices"`
+	AccPortion string `json:"acceptedPortion,omitempty"`
+	AccDevices int64  `json:"acceptedDevices,omitempty"`
+	AccType    string `json:"receivedType,omitempty"`
+	Panic      string `json:"panic,omitempty"`
 	gpus       float64
 	portion    float64
 }
@@ -164,26 +197,27 @@ type Finding struct {
 
 // PodRecord is everything observed for one pod.
 type PodRecord struct {
-	In       *PodIn     `json:"input"`
-	Adm      AdmView    `json:"admissionSharingEnabled"`
-	AdmOff   AdmView    `json:"admissionSharingDisabled"`
-	Sched    SchedView  `json:"scheduler"`
-	Bind     BindView   `json:"binder"`
-	BindCycle *BindView `json:"binderAfterRealCycle,omitempty"`
-	Idem     string     `json:"mutateIdempotence"` // "same" | "n/a" | description of the difference
-	Findings []string   `json:"findings,omitempty"`
-	fs       []Finding
-	expCont  string     // oracle: name of the container that must receive the share ("" = unknown/missing)
-	fracD    denoted
-	memK     numKind
-	memV     *big.Int
-	devK     numKind
-	devV     *big.Int
-	sharing  bool       // a sharing annotation is present
-	valid    bool       // every present sharing annotation denotes an in-range finite positive quantity
-	expDev   int64      // denoted device count when it fits (else -1)
-	expFrac  float64    // denoted fraction (valid fraction pods)
-	expMem   int64      // denoted memory when it fits (else -1)
+	In           *PodIn    `json:"input"`
+	Adm          AdmView   `json:"admissionSharingEnabled"`
+	AdmOff       AdmView   `json:"admissionSharingDisabled"`
+	Sched        SchedView `json:"scheduler"`
+	Bind         BindView  `json:"binder"`
+	BindCycle    *BindView `json:"binderAfterRealCycle,omitempty"`
+	CycleOutcome string    `json:"realCycleOutcome,omitempty"` // "" (not sampled) | placed | unplaced
+	Idem         string    `json:"mutateIdempotence"`          // "same" | "n/a" | description of the difference
+	Findings     []string  `json:"findings,omitempty"`
+	fs           []Finding
+	expCont      string // oracle: name of the container that must receive the share ("" = unknown/missing)
+	fracD        denoted
+	memK         numKind
+	memV         *big.Int
+	devK         numKind
+	devV         *big.Int
+	sharing      bool    // a sharing annotation is present
+	valid        bool    // every present sharing annotation denotes an in-range finite positive quantity
+	expDev       int64   // denoted device count when it fits (else -1)
+	expFrac      float64 // denoted fraction (valid fraction pods)
+	expMem       int64   // denoted memory when it fits (else -1)
 }
 
 func (r *PodRecord) add(oracle, sig, format string, a ...any) {
@@ -292,15 +326,7 @@ func (r *PodRecord) judge(nodeGPUMem int64) {
 	fs, hasF := in.Ann[annFraction]
 	ms, hasM := in.Ann[annMemory]
 	ds, hasD := in.Ann[annDevices]
-	verd := func() string {
-		return fmt.Sprintf("admission(enabled): validateRaw=%q mutate=%q validate=%q accepted=%v | admission(disabled): accepted=%v (%q) | scheduler: type=%s shared=%v gpus=%s portion=%s mem=%d devices=%d | binder: ran=%v skipped=%q bindErr=%q GPU_PORTION=%q NVIDIA_VISIBLE_DEVICES=%q",
-			r.Adm.ValidateRaw, r.Adm.Mutate, r.Adm.Validate, r.Adm.Accepted, r.AdmOff.Accepted, r.AdmOff.Validate+r.AdmOff.Mutate,
-			r.Sched.ReqType, r.Sched.Shared, r.Sched.GPUs, r.Sched.Portion, r.Sched.Memory, r.Sched.Devices,
-			r.Bind.Ran, r.Bind.Skipped, r.Bind.BindErr, r.Bind.GPUPortion, r.Bind.VisibleDevices)
-	}
-	inp := func() string {
-		return fmt.Sprintf("pod %s annotations=%v containers=%s init=%s", in.Name, in.Ann, contStr(in.Containers), contStr(in.Init))
-	}
+	verd, inp := r.verd, r.inp
 	if r.Sched.Panic != "" {
 		r.add("scheduler-panic", "scheduler-panic:NewTaskInfo", "%s: %s", inp(), r.Sched.Panic)
 	}
@@ -418,13 +444,6 @@ func (r *PodRecord) judge(nodeGPUMem int64) {
 		if r.Bind.Ran {
 			r.judgeBinder(&r.Bind, nodeGPUMem, inp, verd)
 		}
-		if r.BindCycle != nil {
-			r.judgeBinder(r.BindCycle, nodeGPUMem, inp, verd)
-			if r.Bind.Ran && (r.Bind.ReqCount != r.BindCycle.ReqCount || r.Bind.ReqPortion != r.BindCycle.ReqPortion || r.Bind.ReqType != r.BindCycle.ReqType) {
-				r.add("harness-self-check", "harness:bindrequest-copy-differs", "the harness' copy of cache.createBindRequest produced {%d %q %s} but the real scheduler cycle wrote {%d %q %s}. %s",
-					r.Bind.ReqCount, r.Bind.ReqPortion, r.Bind.ReqType, r.BindCycle.ReqCount, r.BindCycle.ReqPortion, r.BindCycle.ReqType, inp())
-			}
-		}
 	}
 
 	// ---------------------------------------------------------------- clause (ii)
@@ -459,6 +478,41 @@ func (r *PodRecord) judge(nodeGPUMem int64) {
 	}
 	if (r.Adm.ValidateRaw == "") != (r.Adm.Validate == "") && r.Adm.Mutate == "" {
 		r.add("validate-changes-after-mutate", "validate-changes-after-mutate", "Validate(p)=%q but Validate(Mutate(p))=%q. %s", r.Adm.ValidateRaw, r.Adm.Validate, inp())
+	}
+}
+
+func (r *PodRecord) inp() string {
+	in := r.In
+	return fmt.Sprintf("pod %s annotations=%v containers=%s init=%s", in.Name, in.Ann, contStr(in.Containers), contStr(in.Init))
+}
+
+func (r *PodRecord) verd() string {
+	return fmt.Sprintf("admission(enabled): validateRaw=%q mutate=%q validate=%q accepted=%v | admission(disabled): accepted=%v (%q) | scheduler: type=%s shared=%v gpus=%s portion=%s mem=%d devices=%d | binder: ran=%v skipped=%q bindErr=%q GPU_PORTION=%q NVIDIA_VISIBLE_DEVICES=%q",
+		r.Adm.ValidateRaw, r.Adm.Mutate, r.Adm.Validate, r.Adm.Accepted, r.AdmOff.Accepted, r.AdmOff.Validate+r.AdmOff.Mutate,
+		r.Sched.ReqType, r.Sched.Shared, r.Sched.GPUs, r.Sched.Portion, r.Sched.Memory, r.Sched.Devices,
+		r.Bind.Ran, r.Bind.Skipped, r.Bind.BindErr, r.Bind.GPUPortion, r.Bind.VisibleDevices)
+}
+
+// judgeCycle evaluates what the real scheduler cycle + real binder did with a sampled pod.
+func (r *PodRecord) judgeCycle(nodeGPUMem int64) {
+	if !r.Adm.Accepted {
+		return
+	}
+	if r.CycleOutcome == "unplaced" {
+		// an admitted pod the scheduler can never place is the visible consequence of an accepted invalid request
+		for i := range r.fs {
+			if strings.HasPrefix(r.fs[i].Sig, "accepted-") {
+				r.fs[i].Msg += " [real scheduler cycle on an empty 64-GPU node: the pod stays unplaced]"
+			}
+		}
+	}
+	if r.BindCycle == nil {
+		return
+	}
+	r.judgeBinder(r.BindCycle, nodeGPUMem, r.inp, r.verd)
+	if r.Bind.Ran && (r.Bind.ReqCount != r.BindCycle.ReqCount || r.Bind.ReqPortion != r.BindCycle.ReqPortion || r.Bind.ReqType != r.BindCycle.ReqType) {
+		r.add("harness-self-check", "harness:bindrequest-copy-differs", "the harness' copy of cache.createBindRequest produced {%d %q %s} but the real scheduler cycle wrote {%d %q %s}. %s",
+			r.Bind.ReqCount, r.Bind.ReqPortion, r.Bind.ReqType, r.BindCycle.ReqCount, r.BindCycle.ReqPortion, r.BindCycle.ReqType, r.inp())
 	}
 }
 
